@@ -125,6 +125,8 @@ int __wrap_getaddrinfo(const char *node, const char *service, const struct addri
 {
     /* host names of the form "x<N>addr..." resolve to N addresses (1..4), anything else to one */
     static int slot;
+    /* the resolver is a blocking call (name server time-outs last seconds): fine while the configuration is read, not once the select loop runs */
+    if (rounds > 0) tr("BLOCKING getaddrinfo %s (called from inside the select loop)", node ? node : "-");
     int n = 1;
     if (node && node[0] == 'x' && node[1] >= '1' && node[1] <= '4') n = node[1] - '0';
     struct addrinfo *head = NULL, **tail = &head;
